@@ -6,7 +6,6 @@ sys.path.insert(0, os.path.join(HERE, "scripts"))
 import propcfg
 
 NA = [
-    {"property_id": "C15", "reason": "pure function of its input (XML round trip): no schedule, clock, fault or interleaving for a simulator to decide; see DESIGN.md section 6"},
     {"property_id": "C16", "reason": "pure function of its input (value encoding/decoding, sequential storage): nothing for a simulator to decide; see DESIGN.md section 6"},
     {"property_id": "C19", "reason": "pure function of the build sequence and layout configuration; see DESIGN.md section 6"},
 ]
